@@ -395,6 +395,7 @@ static void opChange(Inst& in, uint8_t dest, bool withPayload, bool immediate) {
 	w.apiBegin(in, op, dest, 255, tag);
 	w.act(in, withPayload ? ACT_CHANGE_WITH : ACT_CHANGE, dest, 255, tag);
 	w.noteRequest(in, 255, dest, withPayload, tag);
+	const bool loggerAtRequestTime = in.loggerAttached;   // (the logger may be attached / detached by a callback of the processing)
 	if (immediate) { w.immOwn = in.loggerAttached; w.immCount = 0; }
 	else { w.ownRequest = true; w.ownLogCount = 0; }
 #if HAS_PAYLOAD
@@ -410,7 +411,7 @@ static void opChange(Inst& in, uint8_t dest, bool withPayload, bool immediate) {
 		else { if (immediate) LIB(in.obj->immediateChangeTo(static_cast<StateID>(dest))); else LIB(in.obj->changeTo(static_cast<StateID>(dest))); }
 	}
 	if (immediate) {
-		if (HAS_LOG && in.loggerAttached && (w.immCount != 1 || w.immOwn))
+		if (HAS_LOG && loggerAtRequestTime && (w.immCount != 1 || w.immOwn))
 			w.V("C16", "action-record-mismatch|immediateChangeTo", fmt("immediateChange(%u) produced %u transition records for the request itself; %s", dest, w.immCount, w.tail().c_str()));
 		w.immOwn = false;
 	} else {
@@ -1020,6 +1021,7 @@ struct Case {
 		logMode = HAS_LOG ? (w.aux.below(10) < 6 ? 0 : w.aux.below(10) < 3 ? 1 : 2) : 1;
 		const unsigned forced = static_cast<unsigned>(g_args.num("logmode", 9));
 		if (forced != 9) logMode = forced;
+		w.logToggleInCallbacks = HAS_LOG && logMode == 2 && !cfg::BARE;
 		opConstruct(0, POL_CHOOSER, logMode == 0 || (logMode == 2 && w.aux.chance(1, 2)));
 		Inst& a = A();
 #if CFG_MANUAL
@@ -1310,6 +1312,13 @@ int main(int argc, char** argv) {
 	static World world;
 	W = &world;
 	world.events.reserve(1u << 15);
+#if HAS_LOG
+	world.attachHook = [](Inst& in, bool attach) {
+		g_lg[in.slot].slot = in.slot;
+		LIB(in.obj->attachLogger(attach ? &g_lg[in.slot] : nullptr));
+		in.loggerAttached = attach;
+	};
+#endif
 	// (not with states that are visible through an attached verbose logger only: the snapshot has no logger of its own)
 	if (!cfg::BARE) world.snapshotHook = [](Inst& in, ffsm2::Method m) {
 		World& w = *W;
